@@ -76,18 +76,30 @@ theorem Family.syn_sound {α : Type} (o : Ops α)
   rw [eq_of_beq this]
 
 theorem Family.frac_sound {K : Type} [Field K] [CharZero K] {o : Ops K} (ho : FieldLike o)
-    (h : f.ok look = true) (htm : f.treeMode = false) (hk : f.kind = .frac)
+    (h : f.ok look = true) (htm : f.treeMode = false) (hk : f.kind = .frac) (hdf : f.divFree = false)
     {ks : List Nat} (hks : ks ∈ f.keys) {j : Nat} (hj : j < f.nOut ks) (env : Nat → K)
     (hall : ∀ a ∈ f.allowed ks, a.divOK o env ∧ a.eval o env ≠ 0) :
     (f.post ks (look f.unit ks).outE j).divOK o env ∧
     (f.post ks (look f.unit ks).outE j).eval o env = (f.spec ks j).eval o env := by
   have := (Family.outE_eq h htm hks).2 j hj
-  simp only [Family.compOK, Family.leafOK, hk, Bool.and_eq_true, Bool.or_eq_true] at this
-  have hd := E.divOK_of_allowed ho _ this.1.2 env hall
+  simp only [Family.compOK, Family.leafOK, hk, hdf, Bool.false_or, Bool.and_eq_true, Bool.or_eq_true] at this
+  have hd := E.divOK_of_allowed ho _ this.2.1 env hall
   refine ⟨hd, ?_⟩
-  rcases this.1.1 with h1 | h1
+  rcases this.1 with h1 | h1
   · rw [eq_of_beq h1]
-  · exact fracEq_sound ho h1 env hd (E.divOK_of_allowed ho _ this.2 env hall)
+  · exact fracEq_sound ho h1 env hd (E.divOK_of_allowed ho _ this.2.2 env hall)
+
+/-- `frac` family with `divFree`: the identity holds whenever neither side divides by zero -/
+theorem Family.frac_divfree_sound {K : Type} [Field K] [CharZero K] {o : Ops K} (ho : FieldLike o)
+    (h : f.ok look = true) (htm : f.treeMode = false) (hk : f.kind = .frac)
+    {ks : List Nat} (hks : ks ∈ f.keys) {j : Nat} (hj : j < f.nOut ks) (env : Nat → K)
+    (hd1 : (f.post ks (look f.unit ks).outE j).divOK o env) (hd2 : (f.spec ks j).divOK o env) :
+    (f.post ks (look f.unit ks).outE j).eval o env = (f.spec ks j).eval o env := by
+  have := (Family.outE_eq h htm hks).2 j hj
+  simp only [Family.compOK, Family.leafOK, hk, Bool.and_eq_true, Bool.or_eq_true] at this
+  rcases this.1 with h1 | h1
+  · rw [eq_of_beq h1]
+  · exact fracEq_sound ho h1 env hd1 hd2
 
 theorem Family.polyMod_sound {R : Type} [CommRing R] {o : Ops R} (ho : RingLike o)
     (h : f.ok look = true) (htm : f.treeMode = false) (hk : f.kind = .polyMod)
@@ -255,15 +267,15 @@ theorem Family.tree_polyMod_sound {R : Type} [CommRing R] {o : Ops R} (ho : Ring
 theorem Family.tree_frac_sound {K : Type} [Field K] [CharZero K] {o : Ops K} (ho : FieldLike o)
     (h : f.ok look = true) (htm : f.treeMode = true) (hw : f.treeWalk = false) (hk : f.kind = .frac)
     {ks : List Nat} (hks : ks ∈ f.keys) {j : Nat} (hj : j < f.nOut ks) (env : Nat → K)
-    (hall : ∀ a ∈ f.allowed ks, a.divOK o env ∧ a.eval o env ≠ 0) :
+    (hall : ∀ a ∈ f.allowed ks, a.divOK o env ∧ a.eval o env ≠ 0) (hdf : f.divFree = false) :
     ((look f.unit ks).out j).eval o env = (f.specT ks j).eval o env := by
   refine treeOK_sound ho.toRingLike env ?_ (Family.tree_elim h htm hw hks hj)
   intro a b hab
-  simp only [Family.leafOK, hk, Bool.and_eq_true, Bool.or_eq_true] at hab
-  rcases hab.1.1 with h1 | h1
+  simp only [Family.leafOK, hk, hdf, Bool.false_or, Bool.and_eq_true, Bool.or_eq_true] at hab
+  rcases hab.1 with h1 | h1
   · rw [eq_of_beq h1]
-  · exact fracEq_sound ho h1 env (E.divOK_of_allowed ho _ hab.1.2 env hall)
-      (E.divOK_of_allowed ho _ hab.2 env hall)
+  · exact fracEq_sound ho h1 env (E.divOK_of_allowed ho _ hab.2.1 env hall)
+      (E.divOK_of_allowed ho _ hab.2.2 env hall)
 
 theorem Family.tree_fracMod_sound {K : Type} [Field K] [CharZero K] {o : Ops K} (ho : FieldLike o)
     (h : f.ok look = true) (htm : f.treeMode = true) (hw : f.treeWalk = false) (hk : f.kind = .fracMod)
